@@ -518,6 +518,13 @@ func (r *Reconciler) reconcileCommit(ctx context.Context, proposal *configapi.Pr
 		if err := r.updateProposalStatus(ctx, proposal); err != nil {
 			return controller.Result{}, err
 		}
+		// Wake the next proposal now: it may be waiting for this commit, and the transaction can move this proposal
+		// on to its apply phase before it is examined again in the COMMITTED state.
+		if proposal.Status.NextIndex != 0 {
+			return controller.Result{
+				Requeue: controller.NewID(proposalstore.NewID(proposal.TargetID, proposal.Status.NextIndex)),
+			}, nil
+		}
 		return controller.Result{}, nil
 	case configapi.ProposalCommitPhase_COMMITTED:
 		if proposal.Status.NextIndex != 0 {
